@@ -287,7 +287,7 @@ def replace (atol : α) (name : String) (f : Nat → List (Arg α) → Except Er
 
 /-- `try_name_anonymous_bloch` -/
 def tryName (atol : α) (r : Rot α) : Rot α :=
-  let close (a b : α) : Bool := closeTo (1e-5 : α) (1e-8 : α) a b
+  let close (a b : α) : Bool := closeTo zero atol a b        -- `np.allclose(…, rtol=0, atol=ATOL)`
   let rec go : List String → Rot α
     | [] => r
     | n :: ns =>
